@@ -1218,11 +1218,39 @@ def _rule2(ctx, rep):
         # ---- shelve: slices of the match list
         f, _pk, fl = _shelve_page(prog, rep)
         r.extra['shelve_states_visited'] = fl.visited
+        item_names = {it.id for _c, _t, _tot, it in fl.results if isinstance(it, ast.Name)}
+        item_exprs = [it for _c, _t, _tot, it in fl.results if it is not None and not isinstance(it, ast.Name)]
+        if not fl.results:
+            raise AnalysisError('shelve _find: no SearchResults(...) construction found')
+
+        def feeds_items(node):
+            """the loop appends to / the comprehension is the value of the items handed to SearchResults"""
+            if isinstance(node, ast.For):
+                return any(
+                    isinstance(c, ast.Call)
+                    and isinstance(c.func, ast.Attribute)
+                    and c.func.attr in _GROW_ONE + _GROW_MANY
+                    and isinstance(c.func.value, ast.Name)
+                    and c.func.value.id in item_names
+                    for c in ast.walk(node)
+                )
+            for a in f.own_nodes():
+                if isinstance(a, (ast.Assign, ast.AnnAssign)) and a.value is not None:
+                    tg = a.targets if isinstance(a, ast.Assign) else [a.target]
+                    if any(isinstance(t, ast.Name) and t.id in item_names for t in tg) and any(x is node for x in ast.walk(a.value)):
+                        return True
+                if isinstance(a, ast.Call) and isinstance(a.func, ast.Attribute) and a.func.attr in _GROW_MANY and isinstance(a.func.value, ast.Name) and a.func.value.id in item_names:
+                    if any(x is node for x in ast.walk(a)):
+                        return True
+            return any(x is node for e in item_exprs for x in ast.walk(e))
+
         by_node = {}
         for node, tag, v in fl.iters:
-            by_node.setdefault(id(node), [node, {}])[1].setdefault(tag, set()).add(v)
+            if feeds_items(node):
+                by_node.setdefault(id(node), [node, {}])[1].setdefault(tag, set()).add(v)
         if not by_node:
-            raise AnalysisError('shelve _find: no iteration over the match list found')
+            r.instance()
+            r.fail(f'{f.qname}:page', where(f), 'no loop or comprehension over the match list feeds the items of SearchResults; pagination not shown')
         for node, tags in by_node.values():
             r.instance()
             it = node.iter if isinstance(node, ast.For) else node.generators[0].iter
@@ -1564,6 +1592,23 @@ def _is_sentinel_test(e, x):
     return False
 
 
+def _is_logging(prog, func, call):
+    """accepted idiom: print(...) / logging.x(...) / <module logger>.x(...) only reports, it neither uses nor drops a constraint"""
+    f = call.func
+    if isinstance(f, ast.Name):
+        return f.id == 'print'
+    parts = prog.dotted(f)
+    if not parts:
+        return False
+    sym = prog.resolve_in(f, func) or ''
+    if sym.startswith('external:logging.'):
+        return True
+    for v in func.module.globals.get(parts[0], []):
+        if isinstance(v, ast.Call) and (prog.resolve_expr(v.func, func.module) or '').startswith('external:logging.getLogger'):
+            return True
+    return False
+
+
 class _Contrib(Flow):
     """per alternative: does every path through one iteration of a consumer loop use the element?
 
@@ -1595,7 +1640,7 @@ class _Contrib(Flow):
         return (st,), (st,)
 
     def on_call(self, call, st):
-        if call_name(call) == 'isinstance':
+        if call_name(call) == 'isinstance' or _is_logging(self.u.prog, self.u.f, call):
             return (st,)
         if any(self._mentions(a) for a in call.args) or any(self._mentions(k.value) for k in call.keywords):
             return ((True, st[1]),)
@@ -1944,7 +1989,7 @@ class _Union(Flow):
     def on_call(self, call, st):
         n = call_name(call)
         f = call.func
-        if n == 'isinstance':
+        if n == 'isinstance' or _is_logging(self.prog, self.f, call):
             return (st,)
         targs = [(a, self.ty(a, st)) for a in call.args] + [(k.value, self.ty(k.value, st)) for k in call.keywords]
         risky = [(a, t) for a, t in targs if t is not None and t[0] in ('col', 'el') and (R_ in t[1])]
@@ -2297,7 +2342,8 @@ VARIANTS = [
     V('shelve: loop variable renamed, branches inverted', 'N', _SH, _PK,
       'for rid in v:\n                    if isinstance(rid, Range):\n                        ranges.append(rid)\n                    else:\n                        rids.add(rid)',
       'for entry in v:\n                    if not isinstance(entry, Range):\n                        rids.add(entry)\n                    else:\n                        ranges.append(entry)', None),
-    V('shelve: logging added', 'N', _SH, _PK, 'results = set()', 'results = set()\n        print("searching", parameters)', None),
+    V('shelve: logging added', 'N', _SH, _PK, 'for rid in v:', 'for rid in v:\n                    print("run id entry", rid, v)', None),
+    V('shelve: matches also logged', 'N', _SH, _FI, 'items: [str] = []', 'items: [str] = []\n        for k in self._prime_keys(parameters):\n            print(k)', None),
     V('post: sentinel filter mirrored', 'N', _PO, _AR, 'lambda i: i >= 0', 'lambda i: 0 <= i', None),
     # ---- R-C17-2
     V('slice end is limit again', 'B', _SH, _FI, 'pks[index:stop]', 'pks[index:limit]', 'R-C17-2'),
